@@ -260,52 +260,7 @@ func CallWeight(pred func(call ssa.CallInstruction, callee *ssa.Function) bool, 
 			if callee == nil || callee.Blocks == nil || d <= 0 || !inModule(callee) {
 				return Interval{}
 			}
-			// a helper steered by a constant argument (`report(stop bool, …)` called with true): only the branch that
-			// argument selects counts at this call site
-			known := map[*ssa.Parameter]bool{}
-			for i, a := range c.Common().Args {
-				if k, isK := a.(*ssa.Const); isK && k.Value != nil && k.Value.Kind() == constant.Bool && i < len(callee.Params) {
-					known[callee.Params[i]] = constant.BoolVal(k.Value)
-				}
-			}
-			if len(known) > 0 {
-				saved := pruneEdge
-				pruneEdge = func(b *ssa.BasicBlock, succIdx int) bool {
-					if b.Parent() != callee {
-						return saved != nil && saved(b, succIdx)
-					}
-					iff, isIf := b.Instrs[len(b.Instrs)-1].(*ssa.If)
-					if !isIf {
-						return false
-					}
-					cond := iff.Cond
-					neg := false
-					for {
-						u, isU := cond.(*ssa.UnOp)
-						if !isU || u.Op != token.NOT {
-							break
-						}
-						cond, neg = u.X, !neg
-					}
-					p, isP := stripParamSpill(cond).(*ssa.Parameter)
-					if !isP {
-						return false
-					}
-					val, isKnown := known[p]
-					if !isKnown {
-						return false
-					}
-					if neg {
-						val = !val
-					}
-					// successor 0 is taken when the condition is true
-					return (succIdx == 0) != val
-				}
-				t, ok := Total(PathCount(callee, wf(d-1)), false)
-				pruneEdge = saved
-				if !ok {
-					t = Interval{}
-				}
+			if t, special := specialised(c, callee, func() (Interval, bool) { return Total(PathCount(callee, wf(d-1)), false) }); special {
 				return t
 			}
 			if iv, ok := memo[callee]; ok {
@@ -321,6 +276,58 @@ func CallWeight(pred func(call ssa.CallInstruction, callee *ssa.Function) bool, 
 		}
 	}
 	return wf(depth)
+}
+
+// specialised evaluates a callee's path count at a call site that steers it with constant boolean arguments
+// (`report(stop bool, …)` called with true): only the branches those arguments select count at this site.
+func specialised(c ssa.CallInstruction, callee *ssa.Function, count func() (Interval, bool)) (Interval, bool) {
+	known := map[*ssa.Parameter]bool{}
+	for i, a := range c.Common().Args {
+		if k, isK := a.(*ssa.Const); isK && k.Value != nil && k.Value.Kind() == constant.Bool && i < len(callee.Params) {
+			known[callee.Params[i]] = constant.BoolVal(k.Value)
+		}
+	}
+	if len(known) == 0 {
+		return Interval{}, false
+	}
+	saved := pruneEdge
+	pruneEdge = func(b *ssa.BasicBlock, succIdx int) bool {
+		if b.Parent() != callee {
+			return saved != nil && saved(b, succIdx)
+		}
+		iff, isIf := b.Instrs[len(b.Instrs)-1].(*ssa.If)
+		if !isIf {
+			return false
+		}
+		cond := iff.Cond
+		neg := false
+		for {
+			u, isU := cond.(*ssa.UnOp)
+			if !isU || u.Op != token.NOT {
+				break
+			}
+			cond, neg = u.X, !neg
+		}
+		p, isP := stripParamSpill(cond).(*ssa.Parameter)
+		if !isP {
+			return false
+		}
+		val, isKnown := known[p]
+		if !isKnown {
+			return false
+		}
+		if neg {
+			val = !val
+		}
+		// successor 0 is taken when the condition is true
+		return (succIdx == 0) != val
+	}
+	t, ok := count()
+	pruneEdge = saved
+	if !ok {
+		t = Interval{}
+	}
+	return t, true
 }
 
 // ---- dominance ----
@@ -526,6 +533,9 @@ func InstrWeight(pred func(ssa.Instruction) bool, depth int) func(ssa.Instructio
 			callee := Callee(c)
 			if callee == nil || callee.Blocks == nil || d <= 0 || !inModule(callee) {
 				return Interval{}
+			}
+			if t, special := specialised(c, callee, func() (Interval, bool) { return Total(PathCount(callee, wf(d-1)), true) }); special {
+				return t
 			}
 			if iv, ok := memo[callee]; ok {
 				return iv
